@@ -31,6 +31,7 @@ func modHTMLEscape(ctx *Ctx, buf *any, val any, args []any) error {
 	}
 	for c := 0; c < itr; c++ {
 		ctx.BufAcc.StakeOut()
+		o = 0
 		_ = b[l-1]
 		for i := 0; i < l; i++ {
 			c := b[i]
